@@ -324,6 +324,70 @@ def check_case(p, ctx):
     judge(p, ctx, fsys, fm, A, b_top, frame, consistent)
 
 
+# ------------------------------------------------------------------------------- aimed at a narrow range
+@st.composite
+def params_aim(draw, tier):
+    p = draw(params(tier))
+    p["shape"] = "flower"
+    p["method"] = None
+    p["rhs"] = "static"
+    p["x0"] = "none"
+    p["limit"] = None
+    p["noise_seed"] = draw(st.integers(0, 2 ** 32 - 1))
+    p["target"] = draw(st.sampled_from([2e-4, 3e-4, 4.5e-4, 6e-4, 2e-3]))      # size of the negative entry aimed at
+    return p
+
+
+def check_aim(p, ctx):
+    """Square systems (inversion path) whose exact solution has a negative tension of a chosen small size: the noise
+    amplitude of a fixed noise pattern is bisected until the smallest exact tension lies in (-target, -target/4)."""
+    from ..core import ForsysCrash
+
+    def smallest(s):
+        q = dict(p, noise=s, allow_negatives=True, omit_defaults=False)
+        out = solve_once(q, ctx)
+        if out is None:
+            return None
+        rec = getattr(out[1], "_verif_record", None)
+        if rec is None or rec["path"] != "inv":
+            return None
+        return float(np.min(rec["xres"][:-1]))
+
+    try:
+        lo, hi = 0.0, 0.3
+        f_hi = smallest(hi)
+        if f_hi is None or f_hi >= 0 or (smallest(0.0) or -1) <= 0:
+            ctx.count("aim:no-sign-change(not square or never negative)")
+            return
+        s_found = None
+        for _ in range(40):
+            mid = 0.5 * (lo + hi)
+            f = smallest(mid)
+            if f is None:
+                break
+            if -p["target"] < f < -0.25 * p["target"]:
+                s_found = mid
+                break
+            if f >= -0.25 * p["target"]:
+                lo = mid
+            else:
+                hi = mid
+        if s_found is None:
+            ctx.count("aim:range-not-reached")
+            return
+    except ForsysCrash:
+        ctx.count("aim:crash-during-search(reported by the random part)")
+        return
+    q = dict(p, noise=s_found, allow_negatives=False, omit_defaults=False)
+    out = solve_once(q, ctx)
+    if out is None:
+        return
+    fsys, fm, A, b_top, frame, t = out
+    ctx.count("aim:small-negative-exact-tension:%g" % p["target"])
+    if judge(q, ctx, fsys, fm, A, b_top, frame, False) == "ok":
+        ctx.mark_nontrivial(q)
+
+
 # ------------------------------------------------------------------------------------------- shipped fixtures
 def check_fixture(p, ctx):
     import forsys as fs
@@ -372,9 +436,10 @@ def run_serial(ctx):
 def run(ctx):
     n = ctx.budget(quick=500, thorough=800)
     drive(ctx, params(ctx.tier), check_case, n, label="tissue")
+    drive(ctx, params_aim(ctx.tier), check_aim, ctx.budget(quick=60, thorough=100), label="aim", seed_offset=3)
 
 
-CASES = {"tissue": check_case, "fixture": check_fixture}
+CASES = {"tissue": check_case, "fixture": check_fixture, "aim": check_aim}
 
 
 def demo_D5():
